@@ -254,7 +254,8 @@ static void c7_damage(int kind,long a,long b){
 
 /* page-level damage: the physical stream is cut into its pages (and the junk between them), edited, and glued together again.
    kinds: 6 delete page i; 7 duplicate page i; 8 swap pages i and j; 9 serial of page i := v; 10 granule position of page i := v;
-   11 header-type flags of page i ^= v; 12 page sequence number of page i := v; 13 v junk bytes inserted in front of page i.
+   11 header-type flags of page i ^= v; 12 page sequence number of page i := v; 13 v junk bytes inserted in front of page i;
+   14/15 split a page inside its first packet (see c7_pagesplit).
    Edited pages get a fresh CRC. */
 typedef struct { long off,len; int ispage; } c7_seg;
 static int c7_segments(buf_t *b,c7_seg *seg,int max){
@@ -299,6 +300,55 @@ static void c7_pagedamage(int kind,long i,long j,long long v){
     }
   }
   free(c7_phys.p); c7_phys=out;
+}
+/* legal re-pagination (not damage): page i is cut inside its first packet — the first v 255-byte segments go to a page of their own that
+   completes no packet (granule position -1), the rest follows on a page flagged "continued"; later pages of the stream are renumbered.
+   kind 14: i = page index in the file; kind 15: i = link index, the link's first audio page is taken; kind 16: the i-th page that can be split.  Returns 1 if a page was split. */
+static int c7_pagesplit(int kind,long i,long long v){
+  static c7_seg seg[4096]; int n=c7_segments(&c7_phys,seg,4096),k,np=0,t=-1; int idx[4096]; buf_t out={0,0,0};
+  unsigned char *pg; long len,lead,nseg,serial,delta,cutoff; int li,renum=0;
+  for(k=0;k<n;k++)if(seg[k].ispage)idx[np++]=k;
+  if(np==0)return 0;
+  if(kind==15){
+    if(c7_nlinks<1)return 0;
+    i=((i%c7_nlinks)+c7_nlinks)%c7_nlinks;
+    for(k=0;k<np;k++){ unsigned char *q=c7_phys.p+seg[idx[k]].off; int b,nz=0;
+      if(seg[idx[k]].off<c7_linkoff[i]||seg[idx[k]].off>=c7_linkoff[i+1])continue;
+      for(b=0;b<8;b++)if(q[6+b])nz=1;
+      if(nz&&!(q[5]&2)){ t=idx[k]; break; } }
+    if(t<0)return 0;
+  }else if(kind==16){                                     /* the i-th page that can be split at all */
+    int cand[4096],nc=0;
+    for(k=0;k<np;k++){ unsigned char *q=c7_phys.p+seg[idx[k]].off; if(!(q[5]&2)&&q[26]>=2&&q[27]==255)cand[nc++]=idx[k]; }
+    if(!nc)return 0;
+    t=cand[((i%nc)+nc)%nc];
+  }else{ i=((i%np)+np)%np; t=idx[i]; }
+  pg=c7_phys.p+seg[t].off; len=seg[t].len; nseg=pg[26];
+  if(pg[5]&2)return 0;                                   /* never the BOS page */
+  for(lead=0;lead<nseg&&pg[27+lead]==255;lead++);
+  if(lead==nseg)lead--;                                   /* something must stay for the second page */
+  if(lead<1)return 0;
+  v=1+((v%lead)+lead)%lead;                               /* 1..lead segments on the first page */
+  serial=pg[14]|(pg[15]<<8)|(pg[16]<<16)|((long)pg[17]<<24);
+  cutoff=seg[t].off; delta=27;                            /* one more page header, the lacing values are shared out */
+  for(k=0;k<n;k++){
+    unsigned char *src=c7_phys.p+seg[k].off; long l=seg[k].len;
+    if(k==t){
+      unsigned char ha[27+255],hb[27+255]; long at; long seq=pg[18]|(pg[19]<<8)|(pg[20]<<16)|((long)pg[21]<<24); int b;
+      memcpy(ha,pg,27); ha[5]=pg[5]&~4; for(b=0;b<8;b++)ha[6+b]=0xff; ha[26]=(unsigned char)v; memset(ha+27,255,v);
+      at=out.n; buf_add(&out,ha,27+v); buf_add(&out,pg+27+nseg,255*v); c7_recrc(out.p+at,27+v+255*v);
+      memcpy(hb,pg,27); hb[5]=(pg[5]|1)&~2; seq++; hb[18]=seq&255; hb[19]=(seq>>8)&255; hb[20]=(seq>>16)&255; hb[21]=(seq>>24)&255;
+      hb[26]=(unsigned char)(nseg-v); memcpy(hb+27,pg+27+v,nseg-v);
+      at=out.n; buf_add(&out,hb,27+nseg-v); buf_add(&out,pg+27+nseg+255*v,len-27-nseg-255*v); c7_recrc(out.p+at,len-27-v-255*v+27);
+      renum=1; continue;
+    }
+    { long at=out.n; buf_add(&out,src,l);
+      if(renum&&seg[k].ispage&&l>=27){ unsigned char *q=out.p+at; long s2=q[14]|(q[15]<<8)|(q[16]<<16)|((long)q[17]<<24);
+        if(s2==serial){ if(q[5]&2)renum=0; else{ long seq=q[18]|(q[19]<<8)|(q[20]<<16)|((long)q[21]<<24); seq++; q[18]=seq&255; q[19]=(seq>>8)&255; q[20]=(seq>>16)&255; q[21]=(seq>>24)&255; c7_recrc(q,l); } } } }
+  }
+  for(li=0;li<=c7_nlinks&&li<65;li++) if(c7_linkoff[li]>cutoff) c7_linkoff[li]+=delta;
+  free(c7_phys.p); c7_phys=out;
+  return 1;
 }
 /* multiplex: the pages of the link appended last are interleaved with those of a freshly encoded foreign stream
    (grouping rule: both BOS pages first) */
@@ -380,7 +430,8 @@ static int c07_main(int argc,char **argv){
     }else if(!strcmp(op,"damage")&&n>=4){
       c7_damage(atoi(tok[1]),atol(tok[2]),atol(tok[3])); printf("damage bytes=%ld\n",c7_phys.n);
     }else if(!strcmp(op,"pagedamage")&&n>=5){
-      c7_pagedamage(atoi(tok[1]),atol(tok[2]),atol(tok[3]),atoll(tok[4])); printf("pagedamage bytes=%ld\n",c7_phys.n);
+      if(atoi(tok[1])>=14&&atoi(tok[1])<=16){ int did=c7_pagesplit(atoi(tok[1]),atol(tok[2]),atoll(tok[4])); printf("pagedamage bytes=%ld split=%d\n",c7_phys.n,did); }
+      else{ c7_pagedamage(atoi(tok[1]),atol(tok[2]),atol(tok[3]),atoll(tok[4])); printf("pagedamage bytes=%ld\n",c7_phys.n); }
     }else if(!strcmp(op,"mux")&&n>=9){
       mk_params P; memset(&P,0,sizeof P);
       P.channels=atoi(tok[1]); P.rate=atol(tok[2]); P.quality=atof(tok[3]); P.n=atol(tok[4]); P.sig=atoi(tok[5]); P.seed=atol(tok[6]); P.pagemode=atoi(tok[7]); P.fill=atoi(tok[8]);
